@@ -60,6 +60,10 @@ type Cfg struct {
 	HeaderSize []byte // optional explicit post-header size table (else default)
 	ExtraData  []byte // rows v2 extra data (without the 2 length bytes)
 	HeaderLen  byte   // common header length announced (0 -> 19)
+	// PadOnes sets the unused high bits of the last byte of every bitmap
+	// (presence, NULL, nullability) to 1, as a server does after
+	// bitmap_set_all; otherwise they are 0.
+	PadOnes bool
 }
 
 // DefaultHeaderSizes returns the post-header length table of a MySQL 5.7
